@@ -131,6 +131,17 @@ type content struct {
 	Opt    int
 }
 
+// ev maps an enum wire value (permission, invite type: int32 on the wire, so negative values exist)
+// to the natural number the model sees. In-range and positive out-of-range values are themselves;
+// negative ones are mapped injectively above 10^6. The model treats every out-of-enum value alike
+// (as the unmodified switch statements of models.go / validator.go do).
+func ev(v int) int {
+	if v < 0 {
+		return 1000000 - v
+	}
+	return v
+}
+
 func b01(b bool) string {
 	if b {
 		return "1"
@@ -155,7 +166,7 @@ func pairs(l []pair) string {
 	}
 	s := make([]string, len(l))
 	for i, v := range l {
-		s[i] = fmt.Sprintf("%d.%d", v.Acc, v.Perm)
+		s[i] = fmt.Sprintf("%d.%d", v.Acc, ev(v.Perm))
 	}
 	return strings.Join(s, ",")
 }
@@ -167,25 +178,25 @@ func (k *rkc) wire() string {
 func (c content) wire() string {
 	switch c.K {
 	case "pc":
-		return fmt.Sprintf("pc:%d:%d", c.Acc, c.Perm)
+		return fmt.Sprintf("pc:%d:%d", c.Acc, ev(c.Perm))
 	case "pcs":
 		return "pcs:" + pairs(c.Pairs)
 	case "own":
-		return fmt.Sprintf("own:%d:%d", c.Acc, c.Perm)
+		return fmt.Sprintf("own:%d:%d", c.Acc, ev(c.Perm))
 	case "add":
 		return "add:" + pairs(c.Pairs)
 	case "inv":
-		return fmt.Sprintf("inv:%d:%d:%d:%s", c.Typ, c.Perm, c.Key, b01(c.HasRK))
+		return fmt.Sprintf("inv:%d:%d:%d:%s", ev(c.Typ), ev(c.Perm), c.Key, b01(c.HasRK))
 	case "ich":
-		return fmt.Sprintf("ich:%d:%d", c.Rec, c.Perm)
+		return fmt.Sprintf("ich:%d:%d", c.Rec, ev(c.Perm))
 	case "irv":
 		return fmt.Sprintf("irv:%d", c.Rec)
 	case "ijn":
-		return fmt.Sprintf("ijn:%d:%d:%d:%d:%d:%s:%s", c.Acc, c.Rec, c.Perm, c.SigKey, c.SigAcc, b01(c.Big), b01(c.HasRK))
+		return fmt.Sprintf("ijn:%d:%d:%d:%d:%d:%s:%s", c.Acc, c.Rec, ev(c.Perm), c.SigKey, c.SigAcc, b01(c.Big), b01(c.HasRK))
 	case "rjn":
 		return fmt.Sprintf("rjn:%d:%d:%d:%d:%s", c.Acc, c.Rec, c.SigKey, c.SigAcc, b01(c.Big))
 	case "acc":
-		return fmt.Sprintf("acc:%d:%d:%d", c.Acc, c.Rec, c.Perm)
+		return fmt.Sprintf("acc:%d:%d:%d", c.Acc, c.Rec, ev(c.Perm))
 	case "dec":
 		return fmt.Sprintf("dec:%d", c.Rec)
 	case "can":
@@ -591,7 +602,7 @@ func (w *world) snapshot(l list.AclList) snap {
 	for _, a := range st.CurrentAccounts() {
 		var h []string
 		for _, pc := range a.PermissionChanges {
-			h = append(h, fmt.Sprintf("%d.%d", w.ridx(pc.RecordId), int(pc.Permission)))
+			h = append(h, fmt.Sprintf("%d.%d", w.ridx(pc.RecordId), ev(int(pc.Permission))))
 		}
 		s.Acc[w.aidx(a.PubKey)] = accSt{Perm: int(a.Permissions), Status: int(a.Status), KeyRec: w.ridx(a.KeyRecordId), Hist: strings.Join(h, ";")}
 	}
@@ -637,7 +648,7 @@ func (w *world) snapshotNV(l list.AclList) string {
 	perms := make([]int, nAccounts)
 	pend := make([]string, nAccounts)
 	for i, k := range w.c.acc {
-		perms[i] = int(st.Permissions(k.SignKey.GetPublic()))
+		perms[i] = ev(int(st.Permissions(k.SignKey.GetPublic())))
 		pend[i] = "-"
 		if r, err := st.Record(k.SignKey.GetPublic()); err == nil {
 			pend[i] = strconv.Itoa(w.ridx(r.RecordId))
@@ -680,7 +691,7 @@ func (s snap) String() string {
 		if h == "" {
 			h = "-"
 		}
-		fmt.Fprintf(&b, "%d:%d:%d:%d:%s", k, a.Perm, a.Status, a.KeyRec, h)
+		fmt.Fprintf(&b, "%d:%d:%d:%d:%s", k, ev(a.Perm), a.Status, a.KeyRec, h)
 	}
 	b.WriteString("] I[")
 	for i, k := range sortedKeys(s.Inv) {
@@ -688,7 +699,7 @@ func (s snap) String() string {
 			b.WriteByte(',')
 		}
 		v := s.Inv[k]
-		fmt.Fprintf(&b, "%d:%d:%d:%d", k, v.Typ, v.Perm, v.Key)
+		fmt.Fprintf(&b, "%d:%d:%d:%d", k, ev(v.Typ), ev(v.Perm), v.Key)
 	}
 	b.WriteString("] R[")
 	for i, k := range sortedKeys(s.Req) {
